@@ -218,10 +218,19 @@ class Mon(object):
         self.raised = None
         self.info = {}
 
-    def watch(self, kind):
+    def watch(self, kind, how='pair'):
+        """how: 'pair' = add_callbacks(cb, eb); 'cb-eb' / 'eb-cb' = add_callback and add_errback as two calls in that order"""
         w = Watch(self, kind)
+        w.how = how
         self.watches.append(w)
-        self.future.add_callbacks(w.cb, w.eb)
+        if how == 'pair':
+            self.future.add_callbacks(w.cb, w.eb)
+        elif how == 'cb-eb':
+            self.future.add_callback(w.cb)
+            self.future.add_errback(w.eb)
+        else:
+            self.future.add_errback(w.eb)
+            self.future.add_callback(w.cb)
         return w
 
     def next_epoch(self, net=None):
